@@ -1,9 +1,288 @@
 package main
 
-import "math/rand"
+import (
+	"bytes"
+	"math/rand"
+	"sort"
+	"strconv"
 
-func (h *heapRun) applyStats(o *obj, st Step, ret map[string]interface{}) bool  { return false }
-func (h *heapRun) applyRandom(o *obj, st Step, ret map[string]interface{}) bool { return false }
-func (h *heapRun) applyQuery(o *obj, st Step, ret map[string]interface{}) bool  { return false }
+	"github.com/evolbioinfo/goalign/align"
+	"github.com/evolbioinfo/goalign/distance/dna"
+	"github.com/evolbioinfo/goalign/distance/protein"
+	"github.com/evolbioinfo/goalign/io/clustal"
+	"github.com/evolbioinfo/goalign/io/fasta"
+	"github.com/evolbioinfo/goalign/io/nexus"
+	"github.com/evolbioinfo/goalign/io/paml"
+	"github.com/evolbioinfo/goalign/io/phylip"
+	"github.com/evolbioinfo/goalign/io/stockholm"
+	pmodels "github.com/evolbioinfo/goalign/models/protein"
+)
 
-func randomHeapScript(rng *rand.Rand, mode string, i int) Script { return Script{} }
+func countMap(m map[uint8]int) [][]int {
+	keys := []int{}
+	for k := range m {
+		keys = append(keys, int(k))
+	}
+	sort.Ints(keys)
+	r := [][]int{}
+	for _, k := range keys {
+		r = append(r, []int{k, m[uint8(k)]})
+	}
+	return r
+}
+
+// applyStats: the column statistics of property C14 (all queries).
+func (h *heapRun) applyStats(o *obj, st Step, ret map[string]interface{}) bool {
+	a := st.A
+	h.lastErr = nil
+	switch st.Op {
+	case "MaxCharStats":
+		out, occ, tot := needAlign(o).MaxCharStats(ab(a, "igaps"), ab(a, "ins"))
+		ret["out"], ret["occur"], ret["total"] = b2i(out), nn(occ), nn(tot)
+	case "Consensus":
+		c := needAlign(o).Consensus(ab(a, "igaps"), ab(a, "ins"))
+		ret["new"] = h.addAlign(c)
+	case "CharStats":
+		m := o.sb.CharStats()
+		keys := []int{}
+		for k := range m {
+			keys = append(keys, int(k))
+		}
+		sort.Ints(keys)
+		r := [][]int{}
+		for _, k := range keys {
+			r = append(r, []int{k, int(m[uint8(k)])})
+		}
+		ret["m"] = r
+	case "UniqueCharacters":
+		ret["v"] = b2i(o.sb.UniqueCharacters())
+	case "CharStatsSite":
+		m, err := needAlign(o).CharStatsSite(ai(a, "site"))
+		ret["m"] = countMap(m)
+		h.lastErr = err
+	case "CharStatsSeq":
+		m, err := o.sb.CharStatsSeq(ai(a, "idx"))
+		ret["m"] = countMap(m)
+		h.lastErr = err
+	case "Entropy":
+		e, err := needAlign(o).Entropy(ai(a, "site"), ab(a, "rmgaps"))
+		ret["f"] = fstr(e)
+		h.lastErr = err
+	case "NbVariableSites":
+		ret["v"] = needAlign(o).NbVariableSites()
+	case "InformativeSites":
+		ret["v"] = nn(needAlign(o).InformativeSites())
+	case "AvgAllelesPerSite":
+		ret["f"] = fstr(needAlign(o).AvgAllelesPerSite())
+	case "Pssm":
+		pc, _ := parseF(astrs(a, "pc"))
+		m, err := needAlign(o).Pssm(ab(a, "log"), pc, ai(a, "norm"))
+		h.lastErr = err
+		keys := []int{}
+		for k := range m {
+			keys = append(keys, int(k))
+		}
+		sort.Ints(keys)
+		r := []map[string]interface{}{}
+		for _, k := range keys {
+			vs := []string{}
+			for _, x := range m[uint8(k)] {
+				vs = append(vs, fstr(x))
+			}
+			r = append(r, map[string]interface{}{"c": k, "v": vs})
+		}
+		ret["m"] = r
+	case "CountDifferences":
+		all, diffs := needAlign(o).CountDifferences()
+		ra := [][]int{}
+		for _, k := range all {
+			ra = append(ra, []int{int(k[0]), int(k[1])})
+		}
+		rr := [][][]int{}
+		for _, d := range diffs {
+			row := [][]int{}
+			keys := []string{}
+			for k := range d {
+				keys = append(keys, k)
+			}
+			sort.Strings(keys)
+			for _, k := range keys {
+				row = append(row, []int{int(k[0]), int(k[1]), d[k]})
+			}
+			rr = append(rr, row)
+		}
+		ret["all"], ret["rows"] = ra, rr
+	case "NumGapsUnique", "NumMutationsUnique":
+		var prof *align.CountProfile
+		if p := ai(a, "prof"); p != 0 {
+			prof = align.NewCountProfileFromAlignment(needAlign(h.get(p)))
+		}
+		var u, nw, b []int
+		var err error
+		if st.Op == "NumGapsUnique" {
+			u, nw, b, err = needAlign(o).NumGapsUniquePerSequence(prof)
+		} else {
+			u, nw, b, err = needAlign(o).NumMutationsUniquePerSequence(prof)
+		}
+		ret["uniq"], ret["new"], ret["both"] = nn(u), nn(nw), nn(b)
+		h.lastErr = err
+	case "NumMutRef":
+		s, _ := o.sb.Sequence(ai(a, "i"))
+		r, _ := o.sb.Sequence(ai(a, "refi"))
+		v, err := s.NumMutationsComparedToReferenceSequence(o.sb.Alphabet(), r)
+		ret["v"] = v
+		h.lastErr = err
+	case "ListMutRef":
+		s, _ := o.sb.Sequence(ai(a, "i"))
+		r, _ := o.sb.Sequence(ai(a, "refi"))
+		muts, err := s.ListMutationsComparedToReferenceSequence(o.sb.Alphabet(), r, false)
+		l := []map[string]interface{}{}
+		for _, m := range muts {
+			l = append(l, map[string]interface{}{"r": int(m.Ref), "p": m.Pos, "a": b2i(m.Alt)})
+		}
+		ret["muts"] = l
+		h.lastErr = err
+	case "CountProfile":
+		p := align.NewCountProfileFromAlignment(needAlign(o))
+		l := []map[string]interface{}{}
+		for i := 0; i < p.NbCharacters(); i++ {
+			c, _ := p.NameAt(i)
+			cnt, _ := p.CountsAt(i)
+			l = append(l, map[string]interface{}{"c": int(c), "n": nn(append([]int{}, cnt...))})
+		}
+		ret["prof"] = l
+	default:
+		return false
+	}
+	return true
+}
+
+func parseF(s string) (float64, error) { return strconv.ParseFloat(s, 64) }
+
+// applyRandom: the randomised operations of property C10, each after rand.Seed(seed).
+func (h *heapRun) applyRandom(o *obj, st Step, ret map[string]interface{}) bool {
+	a := st.A
+	h.lastErr = nil
+	switch st.Op {
+	case "ShuffleSites", "Swap", "SimulateRogue", "BuildBootstrap", "RandSubAlign", "Mutate", "AddGaps", "Recombine", "Rarefy":
+	default:
+		return false
+	}
+	al := needAlign(o)
+	rand.Seed(int64(ai(a, "seed")))
+	names := func(l []string) [][]int {
+		r := [][]int{}
+		for _, n := range l {
+			r = append(r, s2i(n))
+		}
+		return r
+	}
+	switch st.Op {
+	case "ShuffleSites":
+		ret["rogues"] = names(al.ShuffleSites(afrac(a, "rp", "rq"), afrac(a, "gp", "gq"), ab(a, "first")))
+	case "Swap":
+		h.lastErr = al.Swap(afrac(a, "rp", "rq"), afrac(a, "posp", "posq"))
+	case "SimulateRogue":
+		r, in := al.SimulateRogue(afrac(a, "pp", "pq"), afrac(a, "lp", "lq"))
+		ret["nil"] = r == nil && in == nil
+		ret["rogue"], ret["intact"] = names(r), names(in)
+	case "BuildBootstrap":
+		ret["new"] = h.addAlign(al.BuildBootstrap(afrac(a, "fp", "fq")))
+	case "RandSubAlign":
+		c, err := al.RandSubAlign(ai(a, "len"), ab(a, "consecutive"))
+		if err != nil {
+			h.lastErr = err
+			return true
+		}
+		ret["new"] = h.addAlign(c)
+	case "Mutate":
+		al.Mutate(afrac(a, "rp", "rq"))
+	case "AddGaps":
+		al.AddGaps(afrac(a, "lp", "lq"), afrac(a, "pp", "pq"))
+	case "Recombine":
+		h.lastErr = al.Recombine(afrac(a, "pp", "pq"), afrac(a, "lp", "lq"), ab(a, "swap"))
+	case "Rarefy":
+		counts := map[string]int{}
+		for _, x := range alist(a, "counts") {
+			m := x.(map[string]interface{})
+			counts[string(i2b(toInts(m["n"])))] = ai(m, "c")
+		}
+		c, err := al.Rarefy(ai(a, "nb"), counts)
+		if err != nil {
+			h.lastErr = err
+			return true
+		}
+		ret["new"] = h.addAlign(c)
+	}
+	return true
+}
+
+// applyQuery: operations that are documented as read-only (writers, distances, pairwise alignment,
+// ORF search, phasing); only the frame condition is judged here (property C19), their results are
+// judged by the properties that own them.
+func (h *heapRun) applyQuery(o *obj, st Step, ret map[string]interface{}) bool {
+	if st.Op != "Query" {
+		return false
+	}
+	h.lastErr = nil
+	al := needAlign(o)
+	q := astrs(st.A, "q")
+	ret["q"] = q
+	switch q {
+	case "fasta":
+		ret["n"] = len(fasta.WriteAlignment(al))
+	case "phylip":
+		ret["n"] = len(phylip.WriteAlignment(al, false, false, false))
+	case "nexus":
+		ret["n"] = len(nexus.WriteAlignment(al))
+	case "clustal":
+		ret["n"] = len(clustal.WriteAlignment(al))
+	case "stockholm":
+		ret["n"] = len(stockholm.WriteAlignment(al))
+	case "paml":
+		ret["n"] = len(paml.WriteAlignment(al))
+	case "string":
+		ret["n"] = len(al.String())
+	case "dist":
+		if al.Alphabet() != align.NUCLEOTIDS || al.NbSequences() < 2 {
+			return true
+		}
+		m, err := dna.Model("k2p", true)
+		if err == nil {
+			_, err = dna.DistMatrix(al, nil, m, -1, -1, -1, -1, false, 0, 2)
+		}
+		ret["err"] = err != nil
+	case "protdist":
+		if al.Alphabet() != align.AMINOACIDS || al.NbSequences() < 2 {
+			return true
+		}
+		m, err := protein.NewProtDistModel(pmodels.ModelStringToInt("jtt"), true, false, 0, true)
+		if err == nil {
+			m.InitModel(al, nil)
+			_, _, _, err = m.MLDist(al, nil)
+		}
+		ret["err"] = err != nil
+	case "sw":
+		if al.NbSequences() < 2 {
+			return true
+		}
+		s1, _ := al.Sequence(0)
+		s2, _ := al.Sequence(1)
+		if bytes.ContainsAny(s1.SequenceChar(), "-.*?") || bytes.ContainsAny(s2.SequenceChar(), "-.*?") {
+			return true
+		}
+		aligner := align.NewPwAligner(s1, s2, align.ALIGN_ALGO_SW)
+		_, err := aligner.Alignment()
+		ret["err"] = err != nil
+	case "orf":
+		_, err := al.LongestORF(true)
+		ret["err"] = err != nil
+		if al.NbSequences() > 0 {
+			s, _ := al.Sequence(0)
+			s.LongestORF()
+		}
+	default:
+		panic(harnessPanic("harness: unknown query " + q))
+	}
+	return true
+}
